@@ -198,7 +198,7 @@ Section Safe.
       destruct e as [pp bb]; cbn in He; subst bb.
       change (mkG (set_slot (arr g) (parr p) (pidx p) (mkSlot q 0)) (narr g) (nitem g) (ikey g) (count g))
         with (with_arr g (set_slot (arr g) (parr p) (pidx p) (mkSlot q 0))).
-      eapply Inv_data_cas; [exact HI|exact E|exact HK|].
+      eapply (Inv_data_cas Hh Ha); [exact HI|exact E|exact HK|].
       destruct Hq as [->|(-> & Hid0 & Hid1 & Hid2)]; [left; reflexivity|right].
       destruct (i_items HI t) as [_ K]. rewrite Hv, Hid1 in K. destruct (K Hid0) as [K1 K2]. split; [|exact K1].
       unfold fits. rewrite K2, Hid2. split; [symmetry; exact P3|exact P5].
@@ -222,14 +222,11 @@ Section Safe.
     - apply slot_eqb_eq in E.
       pose proof (i_known HI t) as HK. unfold view in Hv. rewrite Hv, P2 in HK.
       exists (set_view A t (set_ph (views A t) (PConv (parr p) (pidx p) pp (narr g)))).
-      split; [eapply Inv_trace; eapply Inv_conv; eauto; rewrite Hv; exact P1|]. split; [apply frame_set_view|].
-      rewrite view_set_same. rewrite Hv. set (n := narr g).
+      split; [eapply Inv_trace; eapply (Inv_conv Hh Ha); eauto; rewrite Hv; exact P1|]. split; [apply frame_set_view|].
+      rewrite view_set_same. rewrite Hv. generalize (narr g). intros n.
       (* the store into the pending array node *)
-      cbn [Conc.safe]. clear g A tr HI E HK Hv n. intros g A tr HI Hv. cbn [a_st fst snd].
+      cbn [Conc.safe]. clear g A tr HI E HK Hv. intros g A tr HI Hv. cbn [a_st fst snd].
       unfold view in Hv.
-      assert (Hph : ph (views A t) = PConv (parr p) (pidx p) pp (vid (mkV (mkSlot pp 0) 0 true (vid (mkV snull 0 true 0)))) \/ True) by (right; exact I).
-      clear Hph.
-      match type of Hv with views A t = set_ph l (PConv _ _ _ ?n) => set (n := n) in * end.
       assert (Hph : ph (views A t) = PConv (parr p) (pidx p) pp n) by (rewrite Hv; reflexivity).
       pose proof (i_known HI t) as HK. rewrite Hv in HK. cbn [set_ph ka ko kpre] in HK. rewrite P2 in HK.
       destruct (i_items HI t) as [KI _]. rewrite Hv in KI. cbn [set_ph kit kkey] in KI. rewrite Hkit in KI. destruct (KI Hp0) as [_ KI2].
@@ -240,7 +237,7 @@ Section Safe.
           by (rewrite KI2, Hkkey, P4; reflexivity).
         change (mkG (set_slot (arr g) n (cut (hash (ikey g pp)) (ko l + bits_of (parr p)) abits) (mkSlot pp 0)) (narr g) (nitem g) (ikey g) (count g))
           with (with_arr g (set_slot (arr g) n (cut (hash (ikey g pp)) (ko l + bits_of (parr p)) abits) (mkSlot pp 0))).
-        eapply Inv_store; eauto. }
+        eapply (Inv_store Hh Ha); eauto. }
       split; [apply frame_set_view|]. rewrite view_set_same. rewrite Hv.
       (* the linking CAS *)
       cbn [Conc.safe]. clear g A tr HI Hv Hph HK KI KI2. intros g A tr HI Hv. unfold view in Hv. unfold a_cas.
@@ -254,7 +251,7 @@ Section Safe.
       { eapply Inv_trace.
         change (mkG (set_slot (arr g) (parr p) (pidx p) (mkSlot n 2)) (narr g) (nitem g) (ikey g) (count g))
           with (with_arr g (set_slot (arr g) (parr p) (pidx p) (mkSlot n 2))).
-        eapply Inv_link; eauto. }
+        eapply (Inv_link Hh Ha); eauto. }
       split.
       { intros u Hu. unfold view. cbn. destruct (Nat.eqb_spec u t); [congruence|reflexivity]. }
       unfold view at 1. cbn [views set_view set_pfx]. rewrite Nat.eqb_refl. rewrite Hv. cbn [set_ph ph ka ko kpre kit kkey kid kidk].
